@@ -16,6 +16,7 @@ RULE = (
     "bounding box, dtype changes uint8/16/32/64 (signed for semantic); matchers = threshold, many-to-one, merge. Only "
     "cases whose matching is uniquely determined are judged. Non-trivial = judged case with tp > 0 in the base run; "
     "distinct = hash of (base arrays, transformation, configuration)."
+    ' Further families: pair codes at 2^8 / 2^16 / 2^32, nearly tied candidates with exchanged label values, about 256 components with renamed / retyped foreground class, class values that a narrow cast would erase or join (256, 512, 65536, 257, ...), non-native byte order.'
 )
 ASSUMPTIONS = [
     "labels below 2^24 (the statement's quantifier); labels at the dtype maximum only for uint8/uint16",
